@@ -260,6 +260,12 @@ def stratum_obligations(case):
         out["error"] = "unsupported: reference: %s" % e
     except EngineError as e:
         out["error"] = "engine: %s" % e
+    except TypeError as e:
+        if "record compared with a symbolic number" in str(e):
+            # a recursive relation with a record/ADT column cannot be given an arbitrary (symbolic) loop-head state
+            out["error"] = "unsupported: record-valued column in a recursive stratum (arbitrary loop-head state is numeric only)"
+        else:
+            out["error"] = "exception: " + traceback.format_exc()[-1500:]
     except Exception:
         out["error"] = "exception: " + traceback.format_exc()[-1500:]
     finally:
